@@ -107,7 +107,7 @@ def short_cases(tier, seed):
 
 def latin1_strategy(tier):
     seeds = st.one_of(st.sampled_from(SEEDS), st.integers(0, 2**32 - 1))
-    length = st.integers(0, 64)
+    length = st.one_of(st.integers(0, 64), st.integers(0, 64), st.integers(65, 1500))
     chars = st.one_of(st.characters(min_codepoint=0, max_codepoint=255),
                       st.sampled_from([chr(c) for c in REPS8]))
     text = length.flatmap(lambda n: st.text(chars, min_size=n, max_size=n))
@@ -116,15 +116,18 @@ def latin1_strategy(tier):
 
 def unicode_strategy(tier):
     seeds = st.one_of(st.sampled_from(SEEDS), st.integers(0, 2**32 - 1))
-    return st.tuples(st.text(st.characters(min_codepoint=0, max_codepoint=0x10FFFF), max_size=40), seeds)
+    return st.tuples(st.one_of(st.text(st.characters(min_codepoint=0, max_codepoint=0x10FFFF), max_size=40),
+                               st.text(st.characters(min_codepoint=0, max_codepoint=0x10FFFF), min_size=200, max_size=600)), seeds)
 
 
 def every_length_cases(tier, seed):
     # every length 0..64 (every block count and tail length), deterministic content derived from the seed
     x = (seed * 2654435761 + 12345) & 0xFFFFFFFF
     reps = 6 if tier == "quick" else 60
-    for n in range(0, 65):
-        for r in range(reps):
+    # ... and, once or twice each, every length up to 800 (a node name, a dash and a 250-byte key make some 300 bytes; nothing
+    # in the function bounds its input) and a few far beyond
+    for n in list(range(0, 65)) + list(range(65, 801)) + [1023, 1024, 1025, 4096, 65537]:
+        for r in range(reps if n <= 64 else (1 if tier == "quick" else 3)):
             cs = []
             for _ in range(n):
                 x = (x * 1103515245 + 12345) & 0x7FFFFFFF
